@@ -76,7 +76,7 @@ async function dynamic ({ leaf, resp, a, v, code, ctx }) {
 
 module.exports = mk({
   id: 'C03',
-  families: ['A', 'C', 'B', 'M', 'S', 'P', 'T', 'H', 'Q', 'R', 'N', 'L'],
+  families: ['A', 'C', 'B', 'M', 'S', 'P', 'T', 'H', 'Q', 'R', 'N', 'L', 'K'],
   // real library files: the same static oracle on syntax nobody wrote an expectation for
   corpus: { configs: ['FULL', 'RENAMED'], quickLimit: 60 },
   familyOpts: (tier) => ({ B: { k: tier === 'thorough' ? 2 : 1 }, H: tier === 'thorough' ? {} : { L: 2 }, R: tier === 'thorough' ? {} : { rhs: ['b', 'f()', 'a + b'] } }),
